@@ -114,7 +114,7 @@ CHECKS["C13"] = {
             "CPUSVN / PPID / PCE-ID / FMSPC of symbolic length around the required size and symbolic content; orders: 5 permutations of the 18 TCB "
             "elements (one derived from VERIF_SEED) x 4 of the sub-extensions; n<=3 elements with symbolic OID arc 1..20; malformed variants Platform certificates: 7 sub-extensions (SGX type, platform instance id, configuration besides the mandatory four) in 6 orders, one derived from VERIF_SEED",
     "bounds": {"tcb_element_orders": "4 fixed + 1 seeded permutation", "sub_extension_orders": "4", "symbolic_oid_elements": "n<=3, arc 1..20"},
-    "outside": ["encoding/asn1's DER decoding itself", "certificates whose SGX extension omits an element while keeping the element count",
+    "outside": ["field values whose raw bytes happen to parse as a nested DER OCTET STRING themselves (the ASN.1 decoder is a contract stub: seeded change C13L passes)", "encoding/asn1's DER decoding itself", "certificates whose SGX extension omits an element while keeping the element count",
                 "order independence for all 18! orders: decided for 5 orders plus, for n<=3 elements with symbolic OIDs, that each element updates exactly its own slot"],
     "assumptions": ["encoding/asn1.Unmarshal decodes DER correctly (stub delivers the attached structure, fails on type mismatch)", "encoding/hex.EncodeToString native model"],
     "no_native_replay": ["H13a_ValuesAnyOrder", "H13b_NestedOctetStrings", "H13c_Malformed", "H13d_SymbolicOidArcs"],
@@ -334,6 +334,6 @@ CHECKS["C19"] = {
     "bounds": {"config": "absent / present; policy absent, {}, header only, body only, both; root_of_trust absent / present",
                "flags": "check_crl, get_collateral in {unset, true, false, malformed}; minimum_qe_svn in {unset, 7, 0x10, 2^32, zz}; qe_vendor_id / mr_seam unset or set; rtmrs {unset, valid, bad hex}; trusted_roots unset / one path",
                "verdicts": "verify: ok / plain error / collateral download error / CRL download error; policy conversion and validation ok / error"},
-    "outside": ["the real flag parsing, real protobuf decoding, process exit status and stderr of the built binary"],
+    "outside": ["what prototext / proto decoding accepts as a well-formed config (contract stub: seeded change C19L, DiscardUnknown, passes)", "the real flag parsing, real protobuf decoding, process exit status and stderr of the built binary"],
     "assumptions": PKI_ASSUME + ["errors.As walks %w / multierr wrapping; fmt.Errorf wraps exactly the operands of %w"],
 }
